@@ -844,7 +844,15 @@ impl<'a> Gen<'a> {
 
     fn func(&mut self, m: usize, virt: bool) -> Func {
         self.fn_counter += 1;
-        let name = format!("f{}", self.fn_counter);
+        // With raw keywords as names, the first few functions are called like keywords too.
+        let name = if self.names == 4 && self.fn_counter <= 8 {
+            format!(
+                "r#{}",
+                ["fn", "match", "type", "loop", "move", "ref", "box", "struct"][self.fn_counter - 1]
+            )
+        } else {
+            format!("f{}", self.fn_counter)
+        };
         let nargs = self.rng.below(4);
         let args = (0..nargs)
             .map(|k| (format!("a{k}"), self.sig_ty(m)))
